@@ -144,7 +144,7 @@ package satisfaction_levels
 
 // ---- no state shared between requests (C09): every request decodes its level parameters into a new object
 //@ func (*ThresholdSatisfactionLevelsSource).BlankParams
-//@   property C09 C14 C12 C13
+//@   property C09 C14 C12 C13 C07
 //@   nopanic
 //@   ensures [new_object_each_time] typeis(result, *ThresholdSatisfactionLevels) && fresh(result.(*ThresholdSatisfactionLevels))
 //@ func (*IdealCoefficientSatisfactionLevelsSource).BlankParams
@@ -155,13 +155,13 @@ package satisfaction_levels
 
 // ---- the explicit threshold list under criteria-changing biases (C07, C14, C18, C15)
 //@ func fetchParams
-//@   property C14 C07 C12 C13
+//@   property C14 C07 C12 C13 C15 C18
 //@   panics_iff [wrong_type] !typeis(params, *ThresholdSatisfactionLevels)
 //@   ensures [the_list] result == params.(*ThresholdSatisfactionLevels)
 
 // a new criterion gets, per level, a fraction in [0,1) of the reference criterion's threshold of that level ...
 //@ func assignNewThresholds
-//@   property C14 C18 C12 C13
+//@   property C14 C18 C12 C13 C07
 //@   fnparam generator ensures 0.0 <= result && result < 1.0
 //@   ensures [fraction_of_the_reference_threshold_per_level] fresh(result) && len(result) == len(params.Thresholds) && forall k int :: 0 <= k && k < len(params.Thresholds) ==>
 //@             model.fractionOf(result[k], params.Thresholds[k][referenceCriterion.Id])
@@ -170,14 +170,14 @@ package satisfaction_levels
 
 // ... sorted in the direction of the series (ascending for aspect elimination, descending for satisfaction) ...
 //@ func sortThresholds
-//@   property C14 C18 C12 C13
+//@   property C14 C18 C12 C13 C07
 //@   assigns thresholds
 //@   ensures [in_series_direction] forall i int, j int :: 0 <= i && i < j && j < len(thresholds) ==> (ascending ? thresholds[i] <= thresholds[j] : thresholds[i] >= thresholds[j])
 //@   ensures [same_values] forall k int :: 0 <= k && k < len(thresholds) ==> exists j int :: 0 <= j && j < len(thresholds) && thresholds[k] == old(thresholds[j])
 
 // ... and attached level by level under the new criterion's id
 //@ func mapThresholdsToEntries
-//@   property C14 C18 C12 C13
+//@   property C14 C18 C12 C13 C07
 //@   ensures [one_single_key_map_per_level] fresh(result) && len(result) == len(thresholdsValues) && forall k int :: 0 <= k && k < len(thresholdsValues) ==>
 //@             criterion.Id in result[k] && result[k][criterion.Id] == thresholdsValues[k] && forall q string :: q in result[k] ==> q == criterion.Id
 //@   loop 1 invariant [ctx] fresh(thresholds) && len(thresholds) == len(thresholdsValues)
@@ -226,7 +226,19 @@ package satisfaction_levels
 //@ ifacemethod SatisfactionLevelsSource.BlankParams
 //@   ensures result == blankOf(self)
 //@ func Find
-//@   property C14 C20 C12 C13
+//@   property C14 C20 C12 C13 C01
 //@   ensures [first_source_with_that_name] len(function) > 0 && exists k int :: 0 <= k && k < len(functions) && sourceName(functions[k]) == function && result == blankOf(functions[k])
 //@             && forall j int :: 0 <= j && j < k ==> sourceName(functions[j]) != function
 //@   loop 1 invariant [none_so_far] len(function) > 0 && forall j int :: 0 <= j && j < iter ==> sourceName(functions[j]) != function
+
+// ---- wire format: the JSON names under which requests are read and responses are written (struct tags; encoding/json
+// itself is outside the verified code).  A renamed or omitempty field changes what a client sees without changing any Go value.
+//@ wire IdealCoefficientSatisfactionLevels
+//@   property C01 C14 C20
+//@   json Coefficient=coefficient MaxValue=maxValue MinValue=minValue
+//@ wire ThresholdSatisfactionLevels
+//@   property C01 C07 C14 C20
+//@   json Thresholds=thresholds
+//@ wire ThresholdsUpdate
+//@   property C01 C07 C14 C20
+//@   json Thresholds=thresholds
